@@ -568,7 +568,7 @@ pub fn worker(w: &WorkerArgs) -> i32 {
             let p = |i: usize| print(&es[i], Mode::Minimal);
             let tpls = vec![
                 ("base.html".to_string(), format!("{{% block a %}}{{{{ {} }}}}{{% block b %}}{{% for q in {} %}}{{{{ q }}}}{{% endfor %}}{{% endblock %}}{{% endblock %}}{{% filter upper %}}{{% block c %}}c{{% endblock %}}{{% endfilter %}}", p(0), p(1))),
-                ("child.html".to_string(), format!("{{% extends \"base.html\" %}}{{% block b %}}{{{{ super() }}}}{{% set v %}}{{{{ {} }}}}{{% endset %}}{{{{ <K x={{ {} }} h0={{ h0 | default(value=1) }} /> }}}}{{% <K x=\"s\"> %}}{{{{ v }}}}{{% </K> %}}{{% endblock %}}", p(2), p(3))),
+                ("child.html".to_string(), format!("{{% extends \"base.html\" %}}{{% block b %}}{{{{ super() }}}}{{% set v %}}{{{{ {} }}}}{{% endset %}}{{{{ <K x={{ {} }} h0={{ h0 | default(value=1) }} /> }}}}{{{{ <K x={{ h1 }} zu={{ h2.nope }} zv={{ h3 }} /> }}}}{{% <K x=\"s\"> %}}{{{{ v }}}}{{% </K> %}}{{% endblock %}}", p(2), p(3))),
                 ("lib.html".to_string(), format!("{{% component K(x, ...rest) %}}[{{{{ x | default(value=0) }}}}|{{{{ rest }}}}|{{{{ body | default(value=\"\") }}}}|{{% if {} %}}y{{% endif %}}]{{% endcomponent K %}}", print(&E::Var("x".into()), Mode::Minimal))),
             ];
             w.trace_case(|| json!({"kind": "hostile", "templates": tpls, "contexts": ctxs.iter().map(ctx_to_json).collect::<Vec<_>>()}));
